@@ -6,7 +6,7 @@
 (* arguments; `pre` = what was observable before the interrupted operation.*)
 EXTENDS CommitLogCrash, TLC, Json
 
-CONSTANTS MaxOps, MaxPost, MaxRecs, MaxBatch, MaxEpoch, MaxHit, MaxRecCrash, CapSet, RetSet, CompactSet, Keys, Taints, GenMode
+CONSTANTS MaxOps, MaxPost, MaxRecs, MaxBatch, MaxEpoch, MaxHit, MaxRecCrash, CapSet, RetSet, CompactSet, AgeSet, Keys, Taints, GenMode
 VARIABLES phase, pre, last, nOps, nPost, nVal, hist, pts, nRec
 mcvars == <<vars, phase, pre, last, nOps, nPost, nVal, hist, pts, nRec>>
 
@@ -55,7 +55,8 @@ Tags(op) ==
 Snapshot(op, p) == [sc |-> Sc, nw |-> NewestOf(mem), lastBase |-> Last(mem.segs).base, hw |-> mem.hw, op |-> op, p |-> p]
 
 MCInit ==
-  /\ cfg \in [cap : CapSet, ret : RetSet, compact : CompactSet]
+  /\ cfg \in [cap : CapSet, ret : RetSet, compact : CompactSet, age : AgeSet]
+  /\ cfg.age > 0 => (cfg.ret = 0 /\ ~cfg.compact)      \* the age limit is exercised on its own
   /\ LET R == RecoverFS([lf |-> <<>>, xf |-> <<>>, hwf |-> NoHW, epf |-> <<>>]) IN fs = R.fs /\ mem = R.mem
   /\ obs = [a |-> "Open", ret |-> <<>>, err |-> ""]
   /\ phase = "pre" /\ pre = NoPre /\ last = [a |-> "Open"]
